@@ -633,7 +633,7 @@ M("c03-dot-row-both-case-removed", "C03", VECTORS,
 M("c03-matrixsum-row-for-expressions", "C03", MATRICES,
   '''        if not isinstance(self.matrix, MatrixVariable):
             return None
-        my_vars = self.matrix.get_variables()''', '''        my_vars = self.matrix.get_variables()''', "R03.4", "MatrixSum.jacobian_row")
+        counts: dict[str, int] = {}''', '''        counts: dict[str, int] = {}''', "R03.4", "MatrixSum.jacobian_row")
 M("c03-binop-row-minus-left-constant", "C03", EXPR,
   '''        if self.op == "+" and isinstance(self.left, Constant):''', '''        if self.op in ("+", "-") and isinstance(self.left, Constant):''', "R03.4", "BinaryOp.jacobian_row")
 M("c03-binop-row-without-constant-guard", "C03", EXPR,
@@ -1143,3 +1143,12 @@ MUTANTS.append(dict(id="c09-duplicate-constraints-dropped", props=["C09"], file=
         seen_rows.add((str(c_expr), c.sense))
         c_fn = compile_expression(c_expr, variables)'''),
 ]))
+M("c03-matrix-sum-row-ignores-shared-cells-returns", "C03", MATRICES,
+  '''        counts: dict[str, int] = {}
+        for row in self.matrix._variables:
+            for cell in row:
+                counts[cell.name] = counts.get(cell.name, 0) + 1
+        return [Constant(float(counts.get(var.name, 0))) for var in variables]
+''', '''        my_vars = self.matrix.get_variables()
+        return [Constant(1.0) if var in my_vars else Constant(0.0) for var in variables]
+''', "R03.4", "MatrixSum.jacobian_row")
